@@ -35,6 +35,16 @@ CLAIMED = {
         note=("Trusted: Coq kernel; Reals axioms as printed; translator; extraction + double instance; real-number model; "
               "composition passed as parameter (tie to calculate_composition by test on LTE objects)."),
         ref="§3-C15"),
+    "C17": dict(
+        technique="Coq theorems (axiom-free) about a hand-written exact parser model + exact differential check against parsers.py",
+        text=("proof (full, exact model): for every line that is the rendering of well-formed fields (integers, decimals, exponents, a/b) "
+              "up to blanks and annotation characters inserted anywhere, the model parser returns exactly the printed values, one per field; "
+              "the level-list parser returns the pairs in input order and reports index and text of the first malformed line. The model is "
+              "hand-written (string code) and tied to parsers.py by exact comparison on well-formed and malformed generated lines."),
+        note=("Trusted: Coq kernel (theorems closed under the global context); hand model Parser.v + exact correspondence; float(str) modelled as "
+              "exact decimal -> rational with CPython's correctly rounded float trusted; extraction (ExtrOcamlBasic). Modelling limits: non-Latin-1 "
+              "characters, '_' separators, nan/inf spellings; a/0 raises ZeroDivisionError un-wrapped (modelled, outside the property)."),
+        ref="§3-C17"),
 }
 
 NOT_YET = {}
